@@ -330,6 +330,16 @@ fn parse_impl(
 
         let mut items = vec![];
 
+        // `#![..]` at the top of the block is passed through like any other item entrait does not look into
+        let inner_attrs = content.call(syn::Attribute::parse_inner)?;
+        if !inner_attrs.is_empty() {
+            items.push(ImplItem::Unknown(ItemUnknown {
+                attrs: inner_attrs,
+                vis: syn::Visibility::Inherited,
+                tokens: TokenStream::new(),
+            }));
+        }
+
         while !content.is_empty() {
             items.push(content.parse()?);
         }
